@@ -13,6 +13,9 @@
 //!       harness crate cannot name rayon); the caller is the watchdog: no END within its
 //!       timeout after a BEGIN = the analysis hangs.
 //!   c04 one <case.json> <workdir> <k> <seed>      (replay; prints full observables)
+//!   c04 symseq <seed> <count> <cases_out> <impl_out>
+//!       sequential insertion sequences into a fresh `SymbolTable` (differential against the
+//!       extracted model Symtab.classes)
 //!   c04 symtab <seed> <rounds> <t1,t2,...>
 //!       direct stress of `SymbolTable`: t threads intern the same fresh basic / extended
 //!       identifiers simultaneously; every thread must get the table's symbol, equal ids
@@ -714,6 +717,74 @@ fn symtab_stress(seed: u64, rounds: usize, threads: usize) -> Value {
     json!({"threads": threads, "rounds": rounds, "inserts": ninserts, "problems": problems})
 }
 
+/// sequential differential against the Coq model Symtab/Symtab.v: random insertion sequences,
+/// output per sequence: for the i-th name the index of the first name that got an equal Symbol
+fn symtab_seq(seed: u64, count: usize, cases_path: &str, impl_path: &str) {
+    use vhdl_lang::verif::data::{Latin1String, Symbol, SymbolTable};
+    let mut rng = Rng::new(seed ^ 0x5E9_5E9);
+    let alphabet: [u8; 12] = [b'a', b'A', b'b', b'B', b'z', b'Z', 201, 233, 215, 247, b'_', b'1'];
+    let mut cases = std::io::BufWriter::new(std::fs::File::create(cases_path).unwrap());
+    let mut out = std::io::BufWriter::new(std::fs::File::create(impl_path).unwrap());
+    for _ in 0..count {
+        let len = 1 + rng.below(14);
+        let mut names: Vec<Vec<u8>> = Vec::new();
+        for _ in 0..len {
+            if !names.is_empty() && rng.chance(1, 3) {
+                // a case variant (or the extended twin) of an earlier name
+                let base = names[rng.below(names.len())].clone();
+                let mut v: Vec<u8> = base
+                    .iter()
+                    .map(|&c| {
+                        if rng.chance(1, 2) {
+                            if c.is_ascii_lowercase() { c.to_ascii_uppercase() } else if c.is_ascii_uppercase() { c.to_ascii_lowercase() } else if c == 201 { 233 } else if c == 233 { 201 } else { c }
+                        } else {
+                            c
+                        }
+                    })
+                    .collect();
+                if rng.chance(1, 5) {
+                    if v[0] == b'\\' {
+                        v = v[1..v.len() - 1].to_vec();
+                        if v.is_empty() {
+                            v.push(b'a');
+                        }
+                    } else {
+                        v.insert(0, b'\\');
+                        v.push(b'\\');
+                    }
+                }
+                names.push(v);
+            } else {
+                let l = 1 + rng.below(3);
+                let mut v: Vec<u8> = (0..l).map(|_| alphabet[rng.below(alphabet.len())]).collect();
+                if rng.chance(1, 3) {
+                    v.insert(0, b'\\');
+                    v.push(b'\\');
+                }
+                names.push(v);
+            }
+        }
+        let table = SymbolTable::default();
+        let r = std::panic::catch_unwind(std::panic::AssertUnwindSafe(|| {
+            let mut syms: Vec<Symbol> = Vec::new();
+            for n in &names {
+                let l = Latin1String::new(n);
+                syms.push(if n[0] == b'\\' { table.insert_extended(&l) } else { table.insert(&l) });
+            }
+            let mut cls: Vec<String> = Vec::new();
+            for i in 0..syms.len() {
+                let first = (0..syms.len()).find(|&j| syms[j] == syms[i]).unwrap();
+                cls.push(first.to_string());
+            }
+            cls.join(" ")
+        }));
+        let line: Vec<String> =
+            names.iter().map(|n| n.iter().map(|b| b.to_string()).collect::<Vec<_>>().join(" ")).collect();
+        writeln!(cases, "S {}", line.join(";")).unwrap();
+        writeln!(out, "{}", r.unwrap_or_else(|_| "PANIC".to_string())).unwrap();
+    }
+}
+
 fn main() {
     let args: Vec<String> = std::env::args().collect();
     std::panic::set_hook(Box::new(|_| {}));
@@ -771,6 +842,11 @@ fn main() {
             std::io::stdout().flush().unwrap();
             let v = run_case(&case, &workdir, k, seed, true);
             println!("END 0 {k} {v}");
+        }
+        Some("symseq") => {
+            let seed: u64 = args[2].parse().unwrap();
+            let count: usize = args[3].parse().unwrap();
+            symtab_seq(seed, count, &args[4], &args[5]);
         }
         Some("symtab") => {
             let seed: u64 = args[2].parse().unwrap();
